@@ -98,10 +98,23 @@ def rule_must_invalidate(ctx):
     b = ctx.body(nid)
     clos = sorted(prog.closures_of.get(nid, []))
     filt = None
+    cands = []
     for bi, t in b.calls():
         _, ext, passed = prog.call_targets(b, t)
         if ext and ext.split('::')[-1] in ('filter', 'filter_map', 'retain', 'find', 'take_while', 'skip_while', 'partition') and passed:
-            filt = passed[0]
+            cands.append(passed[0])
+
+    def _calls_pred(f_):
+        # the selecting closure is the one that consults the user predicate (another filter_map may be the removal step)
+        for p_ in _run(ctx, f_, inline_depth=2):
+            ts_ = [p_.ret] + [c for c, v in p_.conds] + [a for e in p_.events if e[0] == 'call' for a in ((e,) + tuple(e[2] or ()))]
+            for t_ in ts_:
+                for x in subterms(t_):
+                    if isinstance(x, tuple) and x and x[0] == 'call' and (x[1] == 'callback' or str(x[1]).endswith(('call_mut', 'call', 'call_once'))):
+                        return True
+        return False
+    if cands:
+        filt = next((f_ for f_ in cands if _calls_pred(f_)), cands[-1])
     if filt is None:
         r.violate(nid, 'no-filter', 'Iterator::filter', 'invalidate_entries_if does not filter the entries with the user predicate', where=ctx.where(nid))
     else:
@@ -439,9 +452,13 @@ def rule_must_expire(ctx):
         return d
     # sync: maintenance run
     for m in sorted(R.maintenance):
-        for p in _run(ctx, m, inline_depth=1, loop_visits=2, inline_pred=lambda n_, b, d: False):
+        # helpers of the run that lead to the expiry step are part of the run
+        step = named(ctx, 'sync.evict_expired')
+        leads = {x for x in prog.reachable_from([m]) if x not in (m, step) and prog.bodies[x].kind != 'closure' and step in prog.reachable_from([x])
+                 and x.startswith('sync::')}
+        for p in _run(ctx, m, inline_depth=1 + min(len(leads), 3), loop_visits=2, inline_pred=lambda n_, b, d, _l=frozenset(leads): n_ in _l):
             d = conf_lits(p)
-            called = any(e[0] == 'call' and str(e[1]) == named(ctx, 'sync.evict_expired') for e in p.events)
+            called = any(e[0] == 'call' and str(e[1]) == step for e in p.events)
             # a path may skip the expiry step only after establishing that neither expiry nor a watermark exists
             established_off = d.get('has_expiry') is False and d.get('has_valid_after') is False
             should = d.get('has_expiry') is True or d.get('has_valid_after') is True or not established_off
